@@ -190,6 +190,38 @@ __all__ = [
 ]
 
 
+# ---------------------------------------- 输出源码时的括号处理 ----------------------------------------
+
+
+def _expression_level(expression) -> int:
+    # pylint: disable=R0911
+    """一般表达式的运算优先级（数值越小优先级越高）：用于在输出源码时判断子表达式是否需要添加括号"""
+    if isinstance(expression, ASTUnaryExpression):
+        return 2
+    if isinstance(expression, ASTComputeExpression):
+        return expression.operator.enum.level
+    if isinstance(expression, (ASTOperatorExpressionBase, ASTBetweenExpression, ASTExistsExpression)):
+        return 9
+    if isinstance(expression, ASTOperatorConditionExpression):
+        return 10
+    if isinstance(expression, ASTLogicalNotExpression):
+        return 11
+    if isinstance(expression, ASTLogicalAndExpression):
+        return 12
+    if isinstance(expression, ASTLogicalXorExpression):
+        return 13
+    if isinstance(expression, ASTLogicalOrExpression):
+        return 14
+    return 0
+
+
+def _operand_source(expression, sql_type, max_level: int) -> str:
+    """返回子表达式的源码：如果子表达式的运算优先级低于 max_level，则添加括号以保持原有的分组"""
+    if _expression_level(expression) > max_level:
+        return f"({expression.source(sql_type)})"
+    return expression.source(sql_type)
+
+
 # ---------------------------------------- 抽象基类 ----------------------------------------
 
 
@@ -406,8 +438,9 @@ class ASTBinaryExpressionBase(ASTExpressionBase):
 
     def source(self, sql_type: SQLType = SQLType.DEFAULT) -> str:
         """返回语法节点的 SQL 源码"""
-        return (f"{self.before_value.source(sql_type)} {self.operator.source(sql_type)} "
-                f"{self.after_value.source(sql_type)}")
+        level = _expression_level(self)
+        return (f"{_operand_source(self.before_value, sql_type, level)} {self.operator.source(sql_type)} "
+                f"{_operand_source(self.after_value, sql_type, level - 1)}")
 
 
 @dataclasses.dataclass(slots=True, frozen=True, eq=True)
@@ -695,7 +728,7 @@ class ASTSubValueExpression(ASTExpressionBase):
 
     def source(self, sql_type: SQLType = SQLType.DEFAULT) -> str:
         """返回语法节点的 SQL 源码"""
-        values_str = ", ".join(value.source(sql_type) for value in self.values)
+        values_str = ", ".join(_operand_source(value, sql_type, 8) for value in self.values)
         return f"({values_str})"
 
 
@@ -725,7 +758,8 @@ class ASTUnaryExpression(ASTExpressionBase):
 
     def source(self, sql_type: SQLType = SQLType.DEFAULT) -> str:
         """返回语法节点的 SQL 源码"""
-        return f"{self.operator.source(sql_type=sql_type)}{self.expression.source(sql_type=sql_type)}"
+        separator = " " if isinstance(self.expression, ASTUnaryExpression) else ""
+        return f"{self.operator.source(sql_type=sql_type)}{separator}{_operand_source(self.expression, sql_type, 2)}"
 
 
 @dataclasses.dataclass(slots=True, frozen=True, eq=True)
@@ -751,7 +785,8 @@ class ASTIsExpression(ASTOperatorExpressionBase):
     def source(self, sql_type: SQLType = SQLType.DEFAULT) -> str:
         """返回语法节点的 SQL 源码"""
         keyword = "IS NOT" if self.is_not else "IS"
-        return f"{self.before_value.source(sql_type)} {keyword} {self.after_value.source(sql_type)}"
+        return (f"{_operand_source(self.before_value, sql_type, 9)} {keyword} "
+                f"{_operand_source(self.after_value, sql_type, 8)}")
 
 
 @dataclasses.dataclass(slots=True, frozen=True, eq=True)
@@ -761,7 +796,8 @@ class ASTInExpression(ASTOperatorExpressionBase):
     def source(self, sql_type: SQLType = SQLType.DEFAULT) -> str:
         """返回语法节点的 SQL 源码"""
         keyword = "NOT IN " if self.is_not else "IN"
-        return f"{self.before_value.source(sql_type)} {keyword} {self.after_value.source(sql_type)}"
+        return (f"{_operand_source(self.before_value, sql_type, 9)} {keyword} "
+                f"{_operand_source(self.after_value, sql_type, 8)}")
 
 
 @dataclasses.dataclass(slots=True, frozen=True, eq=True)
@@ -771,7 +807,8 @@ class ASTLikeExpression(ASTOperatorExpressionBase):
     def source(self, sql_type: SQLType = SQLType.DEFAULT) -> str:
         """返回语法节点的 SQL 源码"""
         keyword = "NOT LIKE" if self.is_not else "LIKE"
-        return f"{self.before_value.source(sql_type)} {keyword} {self.after_value.source(sql_type)}"
+        return (f"{_operand_source(self.before_value, sql_type, 9)} {keyword} "
+                f"{_operand_source(self.after_value, sql_type, 8)}")
 
 
 @dataclasses.dataclass(slots=True, frozen=True, eq=True)
@@ -781,7 +818,8 @@ class ASTRlikeExpression(ASTOperatorExpressionBase):
     def source(self, sql_type: SQLType = SQLType.DEFAULT) -> str:
         """返回语法节点的 SQL 源码"""
         keyword = "NOT RLIKE" if self.is_not else "RLIKE"
-        return f"{self.before_value.source(sql_type)} {keyword} {self.after_value.source(sql_type)}"
+        return (f"{_operand_source(self.before_value, sql_type, 9)} {keyword} "
+                f"{_operand_source(self.after_value, sql_type, 8)}")
 
 
 @dataclasses.dataclass(slots=True, frozen=True, eq=True)
@@ -791,7 +829,8 @@ class ASTRegexpExpression(ASTOperatorExpressionBase):
     def source(self, sql_type: SQLType = SQLType.DEFAULT) -> str:
         """返回语法节点的 SQL 源码"""
         keyword = "NOT REGEXP" if self.is_not else "REGEXP"
-        return f"{self.before_value.source(sql_type)} {keyword} {self.after_value.source(sql_type)}"
+        return (f"{_operand_source(self.before_value, sql_type, 9)} {keyword} "
+                f"{_operand_source(self.after_value, sql_type, 8)}")
 
 
 @dataclasses.dataclass(slots=True, frozen=True, eq=True)
@@ -817,8 +856,8 @@ class ASTBetweenExpression(ASTExpressionBase):
     def source(self, sql_type: SQLType = SQLType.DEFAULT) -> str:
         """返回语法节点的 SQL 源码"""
         if_not_str = "NOT " if self.is_not else ""
-        return (f"{self.before_value.source(sql_type)} {if_not_str}"
-                f"BETWEEN {self.from_value.source(sql_type)} AND {self.to_value.source(sql_type)}")
+        return (f"{_operand_source(self.before_value, sql_type, 9)} {if_not_str}"
+                f"BETWEEN {_operand_source(self.from_value, sql_type, 8)} AND {_operand_source(self.to_value, sql_type, 8)}")
 
 
 @dataclasses.dataclass(slots=True, frozen=True, eq=True)
@@ -837,7 +876,7 @@ class ASTLogicalNotExpression(ASTExpressionBase):
 
     def source(self, sql_type: SQLType = SQLType.DEFAULT) -> str:
         """返回语法节点的 SQL 源码"""
-        return f"{self.operator.source(sql_type)} {self.expression.source(sql_type)}"
+        return f"{self.operator.source(sql_type)} {_operand_source(self.expression, sql_type, 11)}"
 
 
 @dataclasses.dataclass(slots=True, frozen=True, eq=True)
